@@ -463,6 +463,40 @@ fn check_main(prop: &str, tier: &str) -> i32 {
     let mut extra_cov = J::obj();
     let mut extra_viol = Vec::new();
     let mut audit_viol: Vec<(String, J, u64)> = Vec::new();
+    // pinned scenarios: the minimised inputs of every finding made so far, replayed on every run, so that a
+    // defect that comes back is reported deterministically and not only when the sampling happens to hit it
+    {
+        let dir = format!("{}/pinned", supervisor::verif_dir());
+        let mut names: Vec<String> = std::fs::read_dir(&dir).map(|rd| rd.flatten().map(|e| e.file_name().to_string_lossy().to_string()).collect()).unwrap_or_default();
+        names.sort();
+        let mut ran = 0u64;
+        let mut hit = Vec::new();
+        for n in names {
+            if !n.starts_with(prop) || !n.ends_with(".json") {
+                continue;
+            }
+            let path = format!("{}/{}", dir, n);
+            let doc = match std::fs::read_to_string(&path).ok().and_then(|t| J::parse(&t).ok()) {
+                Some(d) => d,
+                None => continue,
+            };
+            ran += 1;
+            let want = if doc.str_of("clause") == "*" { "*".to_string() } else { format!("{}/{}", doc.str_of("clause"), doc.str_of("class")) };
+            let (reproduced, text) = supervisor::replay_in_fresh_process(&path, &want, 60);
+            if reproduced {
+                let actual = text.lines().find(|l| l.starts_with("REPRODUCED ")).map(|l| l[11..].trim().to_string()).unwrap_or(want.clone());
+                let mut d = doc.clone();
+                let mut parts = actual.splitn(2, '/');
+                d.put("clause", J::s(parts.next().unwrap_or("")));
+                d.put("class", J::s(parts.next().unwrap_or("")));
+                d.put("detail", J::s(&format!("pinned scenario {}: {}", n, text.lines().skip_while(|l| !l.starts_with("REPRODUCED ")).nth(1).unwrap_or(""))));
+                d.put("index", J::u(0));
+                hit.push(J::s(&format!("{} -> {}", n, actual)));
+                audit_viol.push((actual, d, 1));
+            }
+        }
+        extra_cov.put("pinned_scenarios", J::obj().set("replayed", J::u(ran)).set("showing_a_violation", J::Arr(hit)));
+    }
     if prop == "C16" {
         // for C16 a history-dependent result is not a harness problem: it is the property failing
         if let Some((n, mism, missing)) = audit {
@@ -477,12 +511,16 @@ fn check_main(prop: &str, tier: &str) -> i32 {
     match prop {
         "C20" => {
             let r = layerb::run_c20(tier, batch_seed);
-            extra_cov = r.coverage;
+            if let (J::Obj(a), J::Obj(b)) = (&mut extra_cov, r.coverage) {
+                a.extend(b);
+            }
             extra_viol = r.violations;
         }
         "C07" => {
             let r = layerb::run_c07_processes(tier, batch_seed);
-            extra_cov = r.coverage;
+            if let (J::Obj(a), J::Obj(b)) = (&mut extra_cov, r.coverage) {
+                a.extend(b);
+            }
             extra_viol = r.violations;
         }
         "C16" => {
@@ -514,7 +552,7 @@ fn replay_main(path: &str) -> i32 {
         }
     };
     let prop = doc.str_of("property");
-    let id = format!("{}/{}", doc.str_of("clause"), doc.str_of("class"));
+    let id = if doc.str_of("clause") == "*" { "*".to_string() } else { format!("{}/{}", doc.str_of("clause"), doc.str_of("class")) };
     println!("replaying {} for {} expecting {}", path, prop, id);
     if doc.get("layer_b").is_some() {
         return layerb::replay(&doc, &id);
